@@ -206,9 +206,12 @@ Definition held (s : state) (t : tid) : list (lockid * lmode) :=
               (match wr s with WHolding v => if v =? u then [(LkRW, MW)] else [] | _ => [] end)
   end.
 
-(* options.go: if EnableRateLimiting && RateLimitConfig != nil { new } else if !EnableRateLimiting { nil } (else unchanged) *)
+(* options.go: a nil RateLimitConfig is replaced by DefaultRateLimiterConfig() first (as in New), so
+   "if EnableRateLimiting && RateLimitConfig != nil { rateLimiter = NewRateLimiter(cfg) } else if !EnableRateLimiting
+   { rateLimiter = nil }" always takes one of the two branches: an enabling update builds a NEW limiter (fresh
+   buckets), a disabling one removes it.  p_cfg = None stands for the default configuration. *)
 Definition swap_lim (p : policy) (v : N) (old : option N) : option N :=
-  if p_enable p then match p_cfg p with Some _ => Some v | None => old end else None.
+  if p_enable p then Some v else None.
 
 Definition draining (s : state) : bool := match wr s with WNone => false | _ => true end.
 
